@@ -275,6 +275,9 @@ pub struct Scenario {
     pub launch_failures: Vec<(u32, u32, u32)>,
     /// maximum number of BFS states before the scenario is reported as capped
     pub max_states: u64,
+    /// stated bound: explore all histories of at most this many events (0 = unbounded)
+    #[serde(default)]
+    pub depth_bound: usize,
 }
 
 impl Scenario {
@@ -290,6 +293,7 @@ impl Scenario {
             kill_reasons: vec!["ConnectionLost".into()],
             launch_failures: vec![],
             max_states: 400_000,
+            depth_bound: 0,
         }
     }
     pub fn prefill(mut self, reserve: u32, max: u32) -> Self {
@@ -316,6 +320,10 @@ impl Scenario {
     }
     pub fn launch_fail(mut self, job: u32, task: u32, nth: u32) -> Self {
         self.launch_failures.push((job, task, nth));
+        self
+    }
+    pub fn depth(mut self, n: usize) -> Self {
+        self.depth_bound = n;
         self
     }
     pub fn cap(mut self, n: u64) -> Self {
